@@ -62,6 +62,41 @@ func fidelityCorpus(fe *fidEngine) {
 			Jar:    []jarPre{{K: "sid", V: "jar-sid"}, {K: "lang", V: "jar-lang", Path: "/", API: 1}, {K: "other", V: "jar-other", API: 2}}}
 		fe.runConfig(c, cf, 4)
 	})
+	// Set replaces every earlier value of the key at its level, also after the key was added twice
+	e.Corpus("set-over-multiple-values-request-header", func(c *ev.Case) {
+		seq := func(k string) multi {
+			return multi{K: k, Vs: []string{"c"}, Cls: []string{clPlain}, Mode: 9, SeqClass: "set-over-multiple-values",
+				Seq: []seqStep{{"add", []string{"a"}}, {"add", []string{"b"}}, {"set", []string{"c"}}}}
+		}
+		cf := &config{Method: "POST", Tmpl: tmpl("/seq"), Req: level{Hdr: []multi{seq("X-Seq")}}}
+		fe.runConfig(c, cf, 2)
+		seqm := multi{K: "X-Seqm", Vs: []string{"c"}, Cls: []string{clPlain}, Mode: 9, SeqClass: "set-over-multiple-values",
+			Seq: []seqStep{{"addmap", []string{"a", "b"}}, {"setmap", []string{"c"}}}}
+		fe.runConfig(c, &config{Method: "GET", Tmpl: tmpl("/seq"), Req: level{Hdr: []multi{seqm}}}, 2)
+	})
+	// the sibling setters (documented the same way)
+	seq3 := func(k string) multi {
+		return multi{K: k, Vs: []string{"c"}, Cls: []string{clPlain}, Mode: 9, SeqClass: "set-over-multiple-values",
+			Seq: []seqStep{{"add", []string{"a"}}, {"add", []string{"b"}}, {"set", []string{"c"}}}}
+	}
+	e.Corpus("set-over-multiple-values-client-header", func(c *ev.Case) {
+		fe.runConfig(c, &config{Method: "GET", Tmpl: tmpl("/seq"), Client: level{Hdr: []multi{seq3("X-Seq")}}}, 2)
+	})
+	e.Corpus("set-over-multiple-values-client-param", func(c *ev.Case) {
+		fe.runConfig(c, &config{Method: "GET", Tmpl: tmpl("/seq"), Client: level{Query: []multi{seq3("k")}}}, 2)
+	})
+	e.Corpus("set-over-multiple-values-request-param", func(c *ev.Case) {
+		fe.runConfig(c, &config{Method: "GET", Tmpl: tmpl("/seq"), Req: level{Query: []multi{seq3("k")}}}, 2)
+	})
+	e.Corpus("set-over-multiple-values-request-form", func(c *ev.Case) {
+		fe.runConfig(c, &config{Method: "POST", Tmpl: tmpl("/seq"), Body: bForm, Form: []multi{seq3("k")}}, 2)
+	})
+	// a file given by explicit name AND path is uploaded under the explicit name
+	e.Corpus("file-explicit-name-with-path", func(c *ev.Case) {
+		cf := &config{Method: "POST", Tmpl: tmpl("/f"), Body: bFiles,
+			Files: []fileSpec{{Name: "shown.txt", DiskName: "ondisk.bin", Content: "xyz", Via: 3, Field: "doc"}, {Name: "only-path.dat", Content: "q", Via: 4}}}
+		fe.runConfig(c, cf, 2)
+	})
 	e.Corpus("struct-setters", func(c *ev.Case) { fe.runStructs(c) })
 	e.Corpus("precedence-all-kinds", func(c *ev.Case) {
 		cf := &config{Method: "POST", UseBase: true, Tmpl: tmpl("/p/", ":name"),
